@@ -4,7 +4,7 @@
 From Coq Require Import ZArith List String Ascii Bool Lia.
 From Model Require Import PyBase Mdl Stereo.
 From Gen Require Import MdlTables.
-From Proofs Require Import MdlProofs MdlV2000 MdlFraming MdlMeta StereoProofs.
+From Proofs Require Import MdlProofs MdlV2000 MdlV3000 MdlFraming MdlMeta StereoProofs.
 Import ListNotations.
 Open Scope Z_scope.
 Local Notation length := List.length.
@@ -107,6 +107,35 @@ Theorem C11_v2000_counts_line_roundtrip : forall na nb t, 0 <= na <= 999 -> 0 <=
 Proof. exact v2_counts_roundtrip. Qed.
 Print Assumptions C11_v2000_counts_line_roundtrip.
 
+(* ---- V3000: what ESDFWrite / EMOLWrite write for a molecule, parse_mol_v3000 reads back field by field (no size limits, any
+        charge, any isotope): tokens are plain (non-empty, no blank, no opening parenthesis, no double quote), symbols are not atom lists / * / R# / D ---- *)
+Theorem C11_v3000_fields_roundtrip : forall mapping g fs,
+  Forall2 wf3_atom (wm_atoms g) fs -> wm_atoms g <> [] -> NoDup (map wa_num (wm_atoms g)) ->
+  Forall (bond_ok (wm_atoms g)) (wm_bonds g) -> Forall (wedge_ok (wm_atoms g) (wm_bonds g)) (wm_wedge g) ->
+  (length (wm_wedge g) + length (plain_bonds g) = length (wm_bonds g))%nat ->
+  exists lines, write_mol_v3000 mapping g = Ok lines /\
+    parse_mol_v3000 (map add_nl lines) =
+    Ok (mk_parsed3 (mk_parsed (title_of (wm_name g)) (map2 (expected_atom mapping) (wm_atoms g) fs)
+          (map (exp_wedge_bond (wm_atoms g) (wm_bonds g)) (wm_wedge g) ++ map (exp_plain_bond (wm_atoms g)) (plain_bonds g))
+          (map (exp_wedge_stereo (wm_atoms g)) (wm_wedge g)) []) []).
+Proof. exact v3000_fields_roundtrip. Qed.
+Print Assumptions C11_v3000_fields_roundtrip.
+
+Theorem C11_v3000_example :
+  (Forall2 wf3_atom (wm_atoms ex3_mol) ex3_fs /\ wm_atoms ex3_mol <> [] /\
+   NoDup (map wa_num (wm_atoms ex3_mol)) /\
+   Forall (bond_ok (wm_atoms ex3_mol)) (wm_bonds ex3_mol) /\
+   Forall (wedge_ok (wm_atoms ex3_mol) (wm_bonds ex3_mol)) (wm_wedge ex3_mol) /\
+   (length (wm_wedge ex3_mol) + length (plain_bonds ex3_mol) = length (wm_bonds ex3_mol))%nat) /\
+  exists lines, write_mol_v3000 true ex3_mol = Ok lines /\ parse_mol_v3000 (map add_nl lines) = Ok ex3_parsed.
+Proof. exact (conj ex3_hypotheses ex3_roundtrip). Qed.
+Print Assumptions C11_v3000_example.
+
+(* the V3000 tokenizer (emol.split) inverts the writer's join of plain tokens *)
+Theorem C11_v3000_split_join : forall toks, Forall plain toks -> split3 (join [sp] toks) = toks.
+Proof. exact split3_join. Qed.
+Print Assumptions C11_v3000_split_join.
+
 (* ---- a written text is iterated line by line as written ---- *)
 Theorem C11_readlines_text_of_lines : forall ls,
   Forall (fun l => ~ In nl l) ls -> readlines (text_of_lines ls) = map add_nl ls.
@@ -137,6 +166,27 @@ Theorem C11_rdf_framing : forall (A : Type) (build_mol : parsed3 -> pyres A) (bu
   collect A (map (rdf_one A build_mol build_rxn) (map snd recs)).
 Proof. exact rdf_framing. Qed.
 Print Assumptions C11_rdf_framing.
+
+(* one record on its own lines: the MOL block (up to the first "M  END" line) goes to the parser, the rest to read_metadata;
+   RDF: the structure goes to the parser, the lines from the first "$DTYPE" line on to read_metadata *)
+Theorem C11_sdf_record_split : forall (A : Type) (build_mol : parsed3 -> pyres A) ml e metal,
+  Forall (fun l => is_mend l = false) ml -> is_mend e = true ->
+  sdf_one A build_mol (ml ++ e :: metal) =
+  match dispatch_mol A build_mol (ml ++ [e]) with
+  | Err x => inr (Py x)
+  | Ok mol => inl (mol, sdf_read_metadata metal)
+  end.
+Proof. exact sdf_record_split. Qed.
+Print Assumptions C11_sdf_record_split.
+Theorem C11_rdf_record_split : forall (A : Type) (build_mol : parsed3 -> pyres A) (build_rxn : rparsed -> pyres A) sl d metal,
+  Forall (fun l => is_dtype l = false) sl -> is_dtype d = true -> sl <> [] ->
+  rdf_one A build_mol build_rxn (sl ++ d :: metal) =
+  match rdf_dispatch A build_mol build_rxn (sl ++ d :: metal) with
+  | Err x => inr (Py x)
+  | Ok obj => inl (obj, rdf_read_metadata (d :: metal))
+  end.
+Proof. exact rdf_record_split. Qed.
+Print Assumptions C11_rdf_record_split.
 
 (* non-vacuity: three-record files with a damaged middle record *)
 Theorem C11_sdf_framing_example :
